@@ -405,7 +405,76 @@ def _best_response_cases(draw):
     return case
 
 
+def check_custom_utilities(case):
+    """The generic UtilityParity moment with user-supplied utilities g(x, a, y, h=0), g(x, a, y, h=1) (two arbitrary
+    real columns, not complementary) and events: gamma is the documented difference of conditional means of
+    g0 + h (g1 - g0), and lambda.gamma(h) - lambda.gamma(h') = -(1/n) sum_i w_i (h_i - h'_i) with w = signed_weights(lambda)."""
+    from fairlearn.reductions import UtilityParity
+
+    n = len(case["g"])
+    r = case["ratio"]
+    m = UtilityParity(**({} if r is None else {"ratio_bound": r, "ratio_bound_slack": 0.0}))
+    U = np.asarray(case["U"], dtype=float)
+    y = pd.Series(case["y"])
+    sf = pd.Series(case["g"])
+    ev = pd.Series(case["event"])
+    m.load_data(np.arange(n).reshape(-1, 1), y, sensitive_features=sf, event=ev, utilities=U)
+    idx = m.index
+    h, h2 = np.asarray(case["h"], dtype=float), np.asarray(case["h2"], dtype=float)
+    rr = 1.0 if r is None else r
+
+    def ref(hv):
+        u = U[:, 0] + hv * (U[:, 1] - U[:, 0])
+        out = {}
+        for e in sorted(set(case["event"])):
+            em = np.asarray([x == e for x in case["event"]])
+            for grp in sorted(set(case["g"])):
+                gm = em & np.asarray([x == grp for x in case["g"]])
+                if gm.any():
+                    out[("+", e, grp)] = rr * u[gm].mean() - u[em].mean()
+                    out[("-", e, grp)] = rr * u[em].mean() - u[gm].mean()
+        return out
+
+    for hv in (h, h2):
+        g = m.gamma(lambda X_: hv)
+        e = ref(hv)
+        need(set(g.index.tolist()) == set(e), f"gamma index {g.index.tolist()} != occurring (event, group) pairs {sorted(e)}")
+        for k, v in e.items():
+            need(abs(float(g[k]) - v) <= 1e-9, f"UtilityParity with custom utilities: gamma[{k}] = {float(g[k])!r}, from the rows: {v!r}")
+    lam = pd.Series([case["lam"][i % len(case["lam"])] for i in range(len(idx))], index=idx)
+    w = np.asarray(m.signed_weights(lam), dtype=float)
+    lhs = float(lam @ m.gamma(lambda X_: h).reindex(idx)) - float(lam @ m.gamma(lambda X_: h2).reindex(idx))
+    # the reduction minimises sum_i w_i * 1[h_i != 1[w_i > 0]]: predicting 1 on row i lowers lambda.gamma by w_i / n
+    rhs = -float(np.sum(w * (h - h2))) / n
+    need(abs(lhs - rhs) <= 1e-9 * max(1.0, float(lam.sum())),
+         f"custom utilities: lambda.gamma(h) - lambda.gamma(h') = {lhs!r} but -(1/n) sum w_i (h_i - h'_i) = {rhs!r}; utilities {U.tolist()}")
+    tags = ["nt"] if len(set(case["g"])) >= 2 and float(np.abs(h - h2).sum()) > 0 else []
+    if np.abs(U[:, 0] + U[:, 1] - 1).max() > 1e-9:
+        tags.append("non_complementary_utilities")
+    return tags
+
+
+@st.composite
+def _custom_utility_cases(draw):
+    k = draw(st.integers(2, 3))
+    sizes = [draw(st.integers(1, 4)) for _ in range(k)]
+    g = [lab for lab, sz in zip(["a", "b", "c"], sizes) for _ in range(sz)]
+    n = len(g)
+    g = [g[i] for i in draw(st.permutations(range(n)))]
+    val = st.sampled_from([0.0, 1.0, 0.5, -1.0, 2.0, 0.25, 3.0])
+    unit = st.sampled_from([0.0, 1.0, 0.5, 0.25])
+    y = draw(st.lists(st.integers(0, 1), min_size=n, max_size=n))
+    ev_mode = draw(st.sampled_from(["all", "label", "drawn"]))
+    event = ["all"] * n if ev_mode == "all" else ["label=%d" % v for v in y] if ev_mode == "label" else draw(st.lists(st.sampled_from(["e1", "e2"]), min_size=n, max_size=n))
+    return {"g": g, "y": y, "event": event, "U": [[draw(val), draw(val)] for _ in range(n)],
+            "h": draw(st.lists(unit, min_size=n, max_size=n)), "h2": draw(st.lists(unit, min_size=n, max_size=n)),
+            "lam": draw(st.lists(st.sampled_from([0.0, 1.0, 0.5, 2.0, 3.5]), min_size=2, max_size=6)),
+            "ratio": draw(st.sampled_from([None, None, 0.8, 0.5]))}
+
+
 SUBS = [
+    Sub("custom_utilities", check_custom_utilities, strategy=_custom_utility_cases, quick=400, thorough=8000, shards=16,
+        floors={"nt": 0.4, "non_complementary_utilities": 0.5}),
     Sub("parity_identity", check_parity_identity, strategy=_identity_cases, quick=800, thorough=20000, shards=16,
         floors={"nt": 0.383, "control": 0.197, "ratio<1": 0.16, "missing_group": 0.15, "soft": 0.268,
                 "both_signs": 0.35, "projection_active": 0.2}),
